@@ -48,7 +48,7 @@ TIERS = {
                   gen=[dict(names=("a", "b", "c"), cost=3, full_cost=2, larger=18000, reps=1)],
                   run_every=14, builds="31", ill=300, real_renames=2, real_runs=4, gen_programs=12, chunk=7000),
     "thorough": dict(mc=[(("a", "b"), 3), (("a", "b", "c"), 3), (("a", "b"), 4)],
-                     gen=[dict(names=("a", "b", "c"), cost=3, full_cost=2, larger=None, reps=3),
+                     gen=[dict(names=("a", "b", "c"), cost=3, full_cost=2, larger=None, reps=2),
                           dict(names=("a", "b"), cost=4, full_cost=0, larger=60000, reps=1)],
                      run_every=8, builds="0,31", ill=3000, real_renames=12, real_runs=24, gen_programs=150, chunk=8000),
 }
